@@ -1029,7 +1029,11 @@ def _defined_names(current, include_setitem):
     elif current.type in ('power', 'atom_expr'):
         if current.children[-2] != '**':  # Just if there's no operation
             trailer = current.children[-1]
-            if trailer.children[0] == '.':
+            if trailer.type != 'trailer':
+                # An await expression (`await x`) is not an assignment target
+                # and defines nothing.
+                pass
+            elif trailer.children[0] == '.':
                 names.append(trailer.children[1])
             elif trailer.children[0] == '[' and include_setitem:
                 for node in current.children[-2::-1]:
